@@ -558,3 +558,19 @@ PROPS["C34"] = dict(
     trusted_base=MIR_TB,
     mir=True,
 )
+
+
+PROPS["C49"] = dict(
+    title="Execution limits are enforced exactly",
+    functions=["radix_engine::system::system_modules::limits::LimitsModule::{process_io_access, process_substate_key}"],
+    bounds="process_io_access: one step from arbitrary heap / track totals (<= 2^40 bytes), every IOAccess form with any "
+           "old / new size and key length 32..=2000, every pair of configured maxima; process_substate_key: field / map / "
+           "sorted keys of any length, any max_substate_key_size",
+    outside="call depth, invoke payload, event / log / panic-message limits (they go through the module API of a running "
+            "kernel), process_substate_value (IndexedScryptoValue), the costing module's cost unit limits (decided under "
+            "C06), and that the track / heap report every size change to the module",
+    assumptions=["an update or removal names an entry that is part of the running total (so the subtraction cannot "
+                 "underflow)", "CanonicalSubstateKey::len is an arbitrary value in 32..=2000 (environment stub)"],
+    trusted_base=MIR_TB,
+    mir=True,
+)
